@@ -7,8 +7,9 @@
   mirror), each next to the statement that the repaired writer delivers the same call intact.
 -/
 import GoImap.Spec.CmdGrammar
+import GoImap.Lemmas.CmdGrammarStatus
 namespace GoImap.C02
-open GoImap.CmdGrammar GoImap.CmdSpec
+open GoImap.CmdGrammar GoImap.CmdSpec GoImap.CmdLemmas
 
 def rd : List Nat := [82, 38, 68]   -- "R&D"
 
@@ -50,5 +51,90 @@ theorem legacy_on_counterexample :
 
 theorem on_repaired : roundTrip {} {} 1 straddle = .calls (sem {} straddle) := by
   decide +kernel
+
+
+/-! ## cmd_fidelity, family by family
+
+  `roundTrip {} cfg tag c` prints `c` with the client-writer mirror (repaired code: no quirk),
+  reads the items back with the server-reader mirror and reports the session calls; `sem cfg c`
+  is the specification.  Hypotheses: `MailboxOK` (Unicode scalar values, encoded form within the
+  server's 4096-byte limit), `strOk` (within that limit), `SetOK`/`SetNF` (a non-empty number set in
+  canonical form, or `$`), `FlagOK` (a flag the client's encoder accepts). -/
+
+/-- LOGIN: user name and password, whatever bytes they contain -/
+theorem cmd_fidelity_login (cfg : Cfg) (tag : Nat) (u p : Str) (hu : strOk u = true) (hp : strOk p = true) :
+    roundTrip {} cfg tag (.login u p) = .calls (sem cfg (.login u p)) :=
+  login_fidelity cfg tag u p hu hp
+
+/-- SELECT / EXAMINE (a previously selected mailbox is unselected first) -/
+theorem cmd_fidelity_select (cfg : Cfg) (tag : Nat) (m : List Nat) (ro : Bool) (hm : MailboxOK m) :
+    roundTrip {} cfg tag (.select m ro) = .calls (sem cfg (.select m ro)) :=
+  select_fidelity cfg tag m ro hm
+
+theorem cmd_fidelity_delete (cfg : Cfg) (tag : Nat) (m : List Nat) (hm : MailboxOK m) :
+    roundTrip {} cfg tag (.delete m) = .calls (sem cfg (.delete m)) :=
+  delete_fidelity cfg tag m hm
+
+theorem cmd_fidelity_subscribe (cfg : Cfg) (tag : Nat) (m : List Nat) (hm : MailboxOK m) :
+    roundTrip {} cfg tag (.subscribe m) = .calls (sem cfg (.subscribe m)) :=
+  subscribe_fidelity cfg tag m hm
+
+theorem cmd_fidelity_unsubscribe (cfg : Cfg) (tag : Nat) (m : List Nat) (hm : MailboxOK m) :
+    roundTrip {} cfg tag (.unsubscribe m) = .calls (sem cfg (.unsubscribe m)) :=
+  unsubscribe_fidelity cfg tag m hm
+
+theorem cmd_fidelity_rename (cfg : Cfg) (tag : Nat) (m n : List Nat) (hm : MailboxOK m) (hn : MailboxOK n) :
+    roundTrip {} cfg tag (.rename m n) = .calls (sem cfg (.rename m n)) :=
+  rename_fidelity cfg tag m n hm hn
+
+/-- non-vacuity: "Entwürfe/R&D" (non-ASCII and an ampersand) and the INBOX spelled "iNbOx" -/
+example : MailboxOK [69, 110, 116, 119, 252, 114, 102, 101, 47, 82, 38, 68] ∧ MailboxOK [105, 78, 98, 79, 120] :=
+  ⟨⟨by decide, by decide⟩, ⟨by decide, by decide⟩⟩
+
+/-- STORE: set, mode, silence and flags -/
+theorem cmd_fidelity_store (cfg : Cfg) (tag : Nat) (uid : Bool) (s : NSet) (op : Nat) (silent : Bool) (flags : List Str)
+    (hs : SetOK s) (hnf : SetNF s) (hop : op ≤ 2) (hf : ∀ f ∈ flags, FlagOK f) :
+    roundTrip {} cfg tag (.store uid s op silent flags) = .calls (sem cfg (.store uid s op silent flags)) :=
+  store_fidelity cfg tag uid s op silent flags hs hnf hop hf
+
+/-- non-vacuity: the set `1:3,7:*` and the flags `\seen` (lower case) and `$label1` -/
+example : SetOK (.set [⟨1, 3⟩, ⟨7, 0⟩]) ∧ SetNF (.set [⟨1, 3⟩, ⟨7, 0⟩]) ∧ FlagOK [92, 115, 101, 101, 110] ∧ FlagOK (str "$label1") := by
+  refine ⟨⟨?_, by decide⟩, ?_, ?_, ?_⟩
+  · simp [NumSet.Canon, NumSet.CanonFrom, NumSet.Range.WF, NumSet.W]
+  · simp only [SetNF]; decide
+  · show isValidFlag _ = true; decide
+  · show isValidFlag _ = true; decide
+
+theorem cmd_fidelity_copy (cfg : Cfg) (tag : Nat) (uid : Bool) (s : NSet) (m : List Nat)
+    (hs : SetOK s) (hnf : SetNF s) (hm : MailboxOK m) :
+    roundTrip {} cfg tag (.copy uid s m) = .calls (sem cfg (.copy uid s m)) :=
+  copy_fidelity cfg tag uid s m hs hnf hm
+
+/-- MOVE to a server with the MOVE capability -/
+theorem cmd_fidelity_move (cfg : Cfg) (tag : Nat) (uid : Bool) (s : NSet) (m : List Nat)
+    (hs : SetOK s) (hnf : SetNF s) (hm : MailboxOK m) (hmove : cfg.hasMove = true) :
+    roundTrip {} cfg tag (.move uid s m) = .calls (sem cfg (.move uid s m)) :=
+  move_fidelity cfg tag uid s m hs hnf hm hmove
+
+theorem cmd_fidelity_expunge (cfg : Cfg) (tag : Nat) :
+    roundTrip {} cfg tag (.expunge none) = .calls (sem cfg (.expunge none)) :=
+  expunge_fidelity cfg tag
+
+theorem cmd_fidelity_uid_expunge (cfg : Cfg) (tag : Nat) (s : NSet) (hs : SetOK s) (hnf : SetNF s) :
+    roundTrip {} cfg tag (.expunge (some s)) = .calls (sem cfg (.expunge (some s))) :=
+  uidExpunge_fidelity cfg tag s hs hnf
+
+/-- STATUS, items in the writer's listed order -/
+theorem cmd_fidelity_status (cfg : Cfg) (tag : Nat) (m : List Nat) (o : StatusOpts) (hm : MailboxOK m)
+    (ho : o.highestModSeq = false) :
+    roundTrip {} cfg tag (.status m o) = .calls (sem cfg (.status m o)) :=
+  status_fidelity cfg tag m o hm ho
+
+/-- STATUS, items in ANY order (the client takes them out of a Go map): the reader rebuilds the same options -/
+theorem cmd_fidelity_status_any_order (cfg : Cfg) (tag : Nat) (m : List Nat) (o : StatusOpts) (hm : MailboxOK m)
+    (ho : o.highestModSeq = false) (l : List SItem) (hp : l.Perm (sItems o)) :
+    parseCmds cfg [statusWire tag m l] = .ok (sem cfg (.status m o)) := by
+  simp only [parseCmds, bind, Except.bind, parse_status cfg tag m o hm ho l hp]
+  simp [sem, semRaw, canon, pure, Except.pure]
 
 end GoImap.C02
